@@ -4,6 +4,7 @@ cd /verif
 git -C /repo status --porcelain | grep -q . && { echo "/repo not clean"; exit 1; }
 for d in seeded/*/; do
   id=$(basename $d)
+  [ -f $d/meta.json ] || continue
   pid=$(python3 -c "import json;print(json.load(open('$d/meta.json'))['breaks_property'])")
   git -C /repo apply /verif/$d/patch.diff || { echo "$id: patch failed"; continue; }
   res="MISSED"
